@@ -137,7 +137,12 @@ func ttlProbe(sc Scenario, i int, st *Stack, d *Driver, ob StepObs) []Violation 
 				if !ok2 {
 					continue
 				}
-				got := deadlineOf(now, e.Exptime)
+				// (judged at the second the back-fill reached L1, not at the second of this probe)
+				at := e.At
+				if at == 0 {
+					at = now
+				}
+				got := deadlineOf(at, e.Exptime)
 				if got != b.Deadline {
 					sig := "backfill-ttl"
 					if e.Exptime > thirtyDays {
@@ -236,6 +241,10 @@ func directedTTL(cfg StackCfg) []Scenario {
 				feed("t", get),
 				feed("b", get)))
 		}
+	}
+	if cfg.Orca == "l1l2" && cfg.L1 == "chunked" {
+		out = append(out, remnantAdd(cfg, "C09-dir-remnant-add"))
+		out[len(out)-1].Probe = ttlProbe
 	}
 	if cfg.Orca == "l1l2" {
 		// back-fill of items with various remaining lifetimes
